@@ -451,7 +451,7 @@ fn gen_op(r: &mut Rng, doc: &Document, safe_only: bool) -> Option<Op> {
                 if e.len() > 1 || !e.iter().all(|i| safe(i)) { return None; } }
             Op::DelZero
         }
-        8 => { let hi = max_num(doc); Op::Renum(if r.chance(1, 2) { 1 } else { hi + 1 + r.below(10) as u32 }) }
+        8 => { let hi = max_num(doc); Op::Renum(match r.below(4) { 0 | 1 => 1, 2 => 1 + r.below(hi.max(1) as u64) as u32 /* inside the range in use */, _ => hi + 1 + r.below(10) as u32 }) }
         9 => {
             if pages.is_empty() { return None; }
             let n = 1 + r.below(pages.len() as u64) as u32;
